@@ -110,6 +110,7 @@ def run_threaded(case):
 
     det, errors = twothread.run_two(case["sched"], writer, reader)
     info["switches"] = det.n_switch
+    info["schedule"] = [det.ydigest, det.step, [list(d) for d in det.decisions]]
     if det.aborted:
         return ("harness", "two-thread run aborted: %s" % det.aborted), info
     for who, name, msg in errors:
@@ -432,7 +433,7 @@ def run(case):
 
 def execute(case):
     f, info = run_threaded(case) if case.get("threaded") else run(case)
-    res = {"clean": f is None or f[0] != "harness", "digest": common.digest([case, f and f[0]]),
+    res = {"clean": f is None or f[0] != "harness", "digest": common.digest([case, f and f[0], info.get("schedule")]),
            "counters": {"kind:" + case["kind"]: 1, "variant:" + case["variant"]: 1,
                         "fault:rejected_input": info["rejected"],
                         "accepted_observations": info["accepted"],
